@@ -1,4 +1,4 @@
-package drivers
+package output
 
 import (
 	task "github.com/go-task/task/v3"
